@@ -339,14 +339,14 @@ def check_init(ck, fn, guarded, pointer):
             c = match.call_named(kids(x)[0], ("init_winner",))
             if c:
                 arg = kids(c)[-1]
-                b = match.binop(arg, ("+",))
+                # the child index, whatever its spelling (2 * root + 1, (root << 1) | 1, ...): evaluated on a few roots
+                from engine import skel
+                vals = [skel.Skel(fn, {root: r_}, None, None).ev(arg) for r_ in (1, 2, 3, 5, 8)]
                 role = None
-                if b and const_int(b[2]) == 1 and is_double(b[1], root):
-                    role = "right"
-                elif b and const_int(b[1]) == 1 and is_double(b[2], root):
-                    role = "right"
-                elif is_double(arg, root):
+                if vals == [2 * r_ for r_ in (1, 2, 3, 5, 8)]:
                     role = "left"
+                elif vals == [2 * r_ + 1 for r_ in (1, 2, 3, 5, 8)]:
+                    role = "right"
                 if role:
                     child[x["did"]] = role
     ck.require(sorted(child.values()) == ["left", "right"],
